@@ -103,6 +103,140 @@ class _IfExpToIf(ast.NodeTransformer):
         return self._split(st, st.value, lambda v: ast.copy_location(ast.Return(value=v), st))
 
 
+# ---------------------------------------------------------------------------------------------------------------- function values
+_OP_BIN = {"add": ast.Add, "sub": ast.Sub, "mul": ast.Mult, "truediv": ast.Div, "floordiv": ast.FloorDiv, "mod": ast.Mod,
+           "and_": ast.BitAnd, "or_": ast.BitOr, "xor": ast.BitXor, "pow": ast.Pow}
+_OP_CMP = {"eq": ast.Eq, "ne": ast.NotEq, "lt": ast.Lt, "le": ast.LtE, "gt": ast.Gt, "ge": ast.GtE, "is_": ast.Is, "is_not": ast.IsNot}
+_OP_OTHER = {"contains", "not_", "getitem", "truth", "neg"}
+_OP_FACTORIES = {"attrgetter", "itemgetter", "methodcaller"}
+
+
+class FunctionValues:
+    """Function values that stand for an expression: operator.add / attrgetter("a") / itemgetter(0) / methodcaller("m") / lambdas, written in
+    place or bound once at module level.  `apply(fv, args)` gives the expression the call computes (None: not such a value)."""
+
+    def __init__(self, repo: Optional[Repo], f: Optional[FuncInfo], local_names: Optional[Set[str]]):
+        self.repo, self.f, self.local_names = repo, f, local_names
+
+    def _global(self, name: str) -> bool:
+        return self.local_names is not None and name not in self.local_names
+
+    def operator_member(self, e: ast.AST) -> Optional[str]:
+        """X when e denotes operator.X"""
+        if isinstance(e, ast.Attribute) and isinstance(e.value, ast.Name) and self._global(e.value.id):
+            if e.value.id == "operator" or self._lookup(e.value.id) == ("module", "operator"):
+                return e.attr
+            return None
+        if isinstance(e, ast.Name) and self._global(e.id):
+            r = self._lookup(e.id)
+            if r and r[0] == "external" and r[1][0] == "operator":
+                return r[1][1]
+            if r is None and e.id in _OP_FACTORIES:
+                return e.id         # written in a helper of another module that imports it (the names are distinctive)
+        return None
+
+    def _lookup(self, name: str):
+        if self.repo is None or self.f is None:
+            return None
+        try:
+            r = self.repo.lookup(self.f.mod.name, name)
+        except Exception:
+            return None
+        if not r:
+            return None
+        if r[0] == "module":
+            return ("module", r[1])
+        return r
+
+    def is_value(self, e: ast.AST) -> bool:
+        if isinstance(e, ast.Lambda):
+            return True
+        m = self.operator_member(e)
+        if m is not None:
+            return m in _OP_BIN or m in _OP_CMP or m in _OP_OTHER
+        if isinstance(e, ast.Call) and not e.keywords or isinstance(e, ast.Call) and self.operator_member(e.func) == "methodcaller":
+            return self.operator_member(e.func) in _OP_FACTORIES and bool(e.args) and all(isinstance(a, ast.Constant) for a in e.args[:1])
+        return False
+
+    def module_value(self, name: str) -> Optional[ast.AST]:
+        """the function value a module-level name is bound to (once)"""
+        if not self._global(name):
+            return None
+        r = self._lookup(name)
+        if r and r[0] == "const" and isinstance(r[1], ast.AST) and self.is_value(r[1]):
+            return r[1]
+        return None
+
+    @staticmethod
+    def _pure(a: ast.AST) -> bool:
+        return isinstance(a, ast.Constant) or _is_pure_path(a)
+
+    def apply(self, fv: ast.AST, args: List[ast.AST], keywords: List[ast.keyword]) -> Optional[ast.AST]:
+        if keywords or any(isinstance(a, ast.Starred) for a in args):
+            return None
+        if isinstance(fv, ast.Lambda):
+            a = fv.args
+            if a.posonlyargs or a.kwonlyargs or a.vararg or a.kwarg or a.defaults or len(a.args) != len(args):
+                return None
+            body = copy.deepcopy(fv.body)
+            if any(isinstance(x, (ast.Lambda, ast.NamedExpr, ast.ListComp, ast.SetComp, ast.DictComp, ast.GeneratorExp)) for x in ast.walk(body)) \
+                    and not all(self._pure(x) for x in args):
+                return None
+            for prm, arg in zip(a.args, args):
+                uses = sum(1 for x in ast.walk(body) if isinstance(x, ast.Name) and x.id == prm.arg)
+                if uses > 1 and not self._pure(arg):
+                    return None
+            # simultaneous substitution
+            mapping = {prm.arg: arg for prm, arg in zip(a.args, args)}
+
+            class Sub(ast.NodeTransformer):
+                def visit_Name(self, n):
+                    if n.id in mapping and isinstance(n.ctx, ast.Load):
+                        return ast.copy_location(copy.deepcopy(mapping[n.id]), n)
+                    return n
+            return Sub().visit(body)
+        m = self.operator_member(fv)
+        if m is not None:
+            if m in _OP_BIN and len(args) == 2:
+                return ast.BinOp(left=args[0], op=_OP_BIN[m](), right=args[1])
+            if m in _OP_CMP and len(args) == 2:
+                return ast.Compare(left=args[0], ops=[_OP_CMP[m]()], comparators=[args[1]])
+            if m == "contains" and len(args) == 2:
+                return ast.Compare(left=args[1], ops=[ast.In()], comparators=[args[0]])
+            if m == "not_" and len(args) == 1:
+                return ast.UnaryOp(op=ast.Not(), operand=args[0])
+            if m == "neg" and len(args) == 1:
+                return ast.UnaryOp(op=ast.USub(), operand=args[0])
+            if m == "getitem" and len(args) == 2:
+                return ast.Subscript(value=args[0], slice=args[1], ctx=ast.Load())
+            if m == "truth" and len(args) == 1:
+                return ast.Call(func=ast.Name(id="bool", ctx=ast.Load()), args=[args[0]], keywords=[])
+            return None
+        if isinstance(fv, ast.Call) and len(args) == 1:
+            fac = self.operator_member(fv.func)
+            x = args[0]
+            if fac == "attrgetter" and not fv.keywords and fv.args and all(isinstance(a, ast.Constant) and isinstance(a.value, str) for a in fv.args):
+                if len(fv.args) > 1 and not self._pure(x):
+                    return None
+
+                def chain(path: str):
+                    out = copy.deepcopy(x)
+                    for part in path.split("."):
+                        out = ast.Attribute(value=out, attr=part, ctx=ast.Load())
+                    return out
+                got = [chain(a.value) for a in fv.args]
+                return got[0] if len(got) == 1 else ast.Tuple(elts=got, ctx=ast.Load())
+            if fac == "itemgetter" and not fv.keywords and fv.args and all(isinstance(a, ast.Constant) for a in fv.args):
+                if len(fv.args) > 1 and not self._pure(x):
+                    return None
+                got = [ast.Subscript(value=copy.deepcopy(x), slice=copy.deepcopy(a), ctx=ast.Load()) for a in fv.args]
+                return got[0] if len(got) == 1 else ast.Tuple(elts=got, ctx=ast.Load())
+            if fac == "methodcaller" and fv.args and isinstance(fv.args[0], ast.Constant) and isinstance(fv.args[0].value, str):
+                return ast.Call(func=ast.Attribute(value=x, attr=fv.args[0].value, ctx=ast.Load()), args=copy.deepcopy(fv.args[1:]),
+                                keywords=copy.deepcopy(fv.keywords))
+        return None
+
+
 _FRESH_EMPTY = ("set", "list", "dict", "frozenset", "tuple")
 
 
@@ -139,8 +273,20 @@ class _Desugar(ast.NodeTransformer):
       * `for i in (c1, .., cn): BODY` over literal constants (no break / continue of that loop, i not rebound) -> BODY[i:=c1]; ..; BODY[i:=cn]
     """
 
-    def __init__(self, local_names: Optional[Set[str]] = None):
+    def __init__(self, local_names: Optional[Set[str]] = None, repo: Optional[Repo] = None, f: Optional[FuncInfo] = None):
         self.local_names = local_names      # None: unknown, only literal constants are substituted
+        self.fv = FunctionValues(repo, f, local_names)
+
+    def visit_Name(self, n):
+        # a module-level name bound once to a function value (attrgetter("a"), operator.add, a lambda ..) is that value
+        if isinstance(n.ctx, ast.Load):
+            v = self.fv.module_value(n.id)
+            if v is not None:
+                new = copy.deepcopy(v)
+                for x in ast.walk(new):
+                    ast.copy_location(x, n)
+                return new
+        return n
 
     def visit_FunctionDef(self, n):
         return n
@@ -170,6 +316,12 @@ class _Desugar(ast.NodeTransformer):
         """`map(F, IT)` -> `(F(v) for v in IT)`, `filter(F, IT)` -> `(v for v in IT if F(v))` (one iterable; F a name, attribute or
         one-parameter lambda, which is applied in place)"""
         self.generic_visit(c)
+        if self.fv.is_value(c.func):
+            got = self.fv.apply(c.func, list(c.args), list(c.keywords))
+            if got is not None:
+                ast.copy_location(got, c)
+                ast.fix_missing_locations(got)
+                return got
         if not (isinstance(c.func, ast.Name) and c.func.id in ("map", "filter") and len(c.args) == 2 and not c.keywords
                 and not any(isinstance(a, ast.Starred) for a in c.args)):
             return c
@@ -178,11 +330,10 @@ class _Desugar(ast.NodeTransformer):
         fn_, it = c.args
         var = f"item__c{next(_counter)}"
         load = lambda: ast.Name(id=var, ctx=ast.Load())
-        if isinstance(fn_, ast.Lambda):
-            a = fn_.args
-            if len(a.args) != 1 or a.posonlyargs or a.kwonlyargs or a.vararg or a.kwarg or a.defaults:
+        if self.fv.is_value(fn_):
+            applied = self.fv.apply(fn_, [load()], [])
+            if applied is None:
                 return c
-            applied = _Subst(a.args[0].arg, load()).visit(copy.deepcopy(fn_.body))
         elif isinstance(fn_, (ast.Name, ast.Attribute)):
             applied = ast.Call(func=fn_, args=[load()], keywords=[])
         elif isinstance(fn_, ast.Constant) and fn_.value is None and c.func.id == "filter":
@@ -300,6 +451,73 @@ class _Desugar(ast.NodeTransformer):
         return self._fix(out, n)
 
 
+class _BoolOpToIf(ast.NodeTransformer):
+    """`x = A and B` / `return A or B` / `if A and B:` with a private helper call in an operand after the first -> the exact statement
+    form `t = A; if t: t = B` (`if not t:` for or), so that the helper can be analysed in place where it is evaluated"""
+
+    def visit_FunctionDef(self, n):
+        return n
+
+    visit_AsyncFunctionDef = visit_Lambda = visit_FunctionDef
+
+    @staticmethod
+    def _wants(v: ast.AST) -> bool:
+        return isinstance(v, ast.BoolOp) and any(_has_private_call(x) for x in v.values[1:])
+
+    def _chain(self, v: ast.BoolOp, at: ast.AST) -> Tuple[List[ast.stmt], ast.expr]:
+        tmp = f"__b__c{next(_counter)}"
+        load = lambda: ast.Name(id=tmp, ctx=ast.Load())
+        store = lambda val: ast.Assign(targets=[ast.Name(id=tmp, ctx=ast.Store())], value=val, lineno=at.lineno)
+        out: List[ast.stmt] = []
+        first_pre, first = self._operand(v.values[0], at)
+        out += first_pre + [store(first)]
+        inner: List[ast.stmt] = out
+        for operand in v.values[1:]:
+            pre, val = self._operand(operand, at)
+            test = load() if isinstance(v.op, ast.And) else ast.UnaryOp(op=ast.Not(), operand=load())
+            body = pre + [store(val)]
+            inner.append(ast.If(test=test, body=body, orelse=[]))
+            inner = body
+        for st in out:
+            ast.copy_location(st, at)
+            ast.fix_missing_locations(st)
+        return out, ast.copy_location(load(), v)
+
+    def _operand(self, e: ast.expr, at: ast.AST) -> Tuple[List[ast.stmt], ast.expr]:
+        if self._wants(e):
+            return self._chain(e, at)
+        return [], e
+
+    def visit_Assign(self, st):
+        if self._wants(st.value):
+            pre, val = self._chain(st.value, st)
+            st.value = val
+            return pre + [st]
+        return st
+
+    def visit_AnnAssign(self, st):
+        if st.value is not None and self._wants(st.value):
+            pre, val = self._chain(st.value, st)
+            st.value = val
+            return pre + [st]
+        return st
+
+    def visit_Return(self, st):
+        if st.value is not None and self._wants(st.value):
+            pre, val = self._chain(st.value, st)
+            st.value = val
+            return pre + [st]
+        return st
+
+    def visit_If(self, st):
+        self.generic_visit(st)
+        if self._wants(st.test):
+            pre, val = self._chain(st.test, st)
+            st.test = val
+            return pre + [st]
+        return st
+
+
 class _TableDispatch(ast.NodeTransformer):
     """`TABLE[key](args)` where TABLE is a dict literal {constant: callable, ...} bound once (locally or at module level) becomes
     `if key == c1: f1(args) elif key == c2: f2(args) ... else: TABLE[key](args)`: the callees become visible to inlining and to the
@@ -392,7 +610,7 @@ def normalise_body(body: List[ast.stmt], repo: Optional[Repo] = None, f: Optiona
         bound = {x.id for x in ast.walk(scope) if isinstance(x, ast.Name) and not isinstance(x.ctx, ast.Load)}
         bound |= {a.arg for x in ast.walk(scope) if isinstance(x, ast.arguments) for a in x.posonlyargs + x.args + x.kwonlyargs}
         bound |= set(f.params) if f is not None else set()
-        ds = _Desugar(bound if f is not None and not any(isinstance(x, (ast.Global, ast.Nonlocal)) for x in ast.walk(scope)) else None)
+        ds = _Desugar(bound if f is not None and not any(isinstance(x, (ast.Global, ast.Nonlocal)) for x in ast.walk(scope)) else None, repo, f)
         body = [y for st in copy.deepcopy(body) for y in (lambda r_: r_ if isinstance(r_, list) else [r_])(ds.visit(st))]
     except Exception:
         pass
@@ -401,11 +619,14 @@ def normalise_body(body: List[ast.stmt], repo: Optional[Repo] = None, f: Optiona
         body = [y for st in body for y in (lambda r_: r_ if isinstance(r_, list) else [r_])(td.visit(st))]
     except Exception:
         pass
+    b = _BoolOpToIf()
     for st in body:
         r = t.visit(st)
         for x in (r if isinstance(r, list) else [r]):
             y = u.visit(x)
-            out.extend(y if isinstance(y, list) else [y])
+            for z in (y if isinstance(y, list) else [y]):
+                w = b.visit(z)
+                out.extend(w if isinstance(w, list) else [w])
     return out
 
 
@@ -732,6 +953,14 @@ class Flattener:
                 self.inlined.append("<generator helpers>")
         except Exception:
             pass
+        try:
+            for _ in range(3):
+                # helper parameters bound to function values are applied; helpers that become visible that way are analysed in place too
+                if not (self.inlined and apply_bound_function_values(self.repo, self.f, fn)):
+                    break
+                fn.body = self._flatten_block(normalise_body(list(fn.body), self.repo, self.f), self.f, (self.f.qn,), 1)
+        except Exception:
+            pass
         propagate_constants(self.repo, self.f, fn)
         if self.inlined:
             specialise(fn)
@@ -742,6 +971,61 @@ class Flattener:
         flat.inlined = list(dict.fromkeys(self.inlined))
         flat.inlined_bodies = self.bodies
         return flat
+
+
+
+def apply_bound_function_values(repo: Repo, f: FuncInfo, fn: ast.FunctionDef) -> bool:
+    """after inlining: a helper parameter bound once to a function value at this call site (`key__i3 = attrgetter("a")`, `to_text__i2 = str`,
+    `fn__i4 = self._render`) is called as that value: `key__i3(x)` -> `x.a`, `to_text__i2(x)` -> `str(x)`.  True when something changed."""
+    stores: Dict[str, int] = {}
+    for n in ast.walk(fn):
+        if isinstance(n, ast.Name) and not isinstance(n.ctx, ast.Load):
+            stores[n.id] = stores.get(n.id, 0) + 1
+    local_names = set(stores) | {a.arg for x in ast.walk(fn) if isinstance(x, ast.arguments) for a in x.posonlyargs + x.args + x.kwonlyargs + ([x.vararg] if x.vararg else []) + ([x.kwarg] if x.kwarg else [])}
+    fv = FunctionValues(repo, f, local_names)
+    self_name = f.self_name if f.is_method else None
+
+    def stable(v: ast.AST) -> bool:
+        if fv.is_value(v):
+            return True
+        if isinstance(v, ast.Name):
+            return v.id not in local_names
+        root = v
+        while isinstance(root, ast.Attribute):
+            root = root.value
+        return isinstance(v, ast.Attribute) and isinstance(root, ast.Name) and (root.id not in local_names or root.id == self_name)
+
+    bound: Dict[str, ast.AST] = {}
+    for n in ast.walk(fn):
+        tgt = val = None
+        if isinstance(n, ast.Assign) and len(n.targets) == 1 and isinstance(n.targets[0], ast.Name):
+            tgt, val = n.targets[0].id, n.value
+        elif isinstance(n, ast.AnnAssign) and isinstance(n.target, ast.Name) and n.value is not None:
+            tgt, val = n.target.id, n.value
+        if tgt and "__i" in tgt and stores.get(tgt) == 1 and stable(val):
+            bound[tgt] = val
+    if not bound:
+        return False
+    changed = [False]
+
+    class Apply(ast.NodeTransformer):
+        def visit_Call(self, c):
+            self.generic_visit(c)
+            if isinstance(c.func, ast.Name) and c.func.id in bound:
+                v = copy.deepcopy(bound[c.func.id])
+                for x in ast.walk(v):
+                    ast.copy_location(x, c.func)
+                changed[0] = True
+                if fv.is_value(v):
+                    got = fv.apply(v, list(c.args), list(c.keywords))
+                    if got is not None:
+                        ast.copy_location(got, c)
+                        return ast.fix_missing_locations(got)
+                c.func = v
+            return c
+
+    Apply().visit(fn)
+    return changed[0]
 
 
 FoldedConstant = type("Constant", (ast.Constant,), {"const_name": "", "__doc__": "a module-level literal constant put in place of its name"})
